@@ -12,7 +12,41 @@ INT_TYPES = {'int', 'int8', 'int16', 'int32', 'int64', 'uint', 'uint8', 'uint16'
 STD_PKGS = {'bytes': 'bytes', 'io': 'io', 'big': 'math/big', 'errors': 'errors', 'fmt': 'fmt', 'strings': 'strings', 'sort': 'sort'}
 
 
+def has_bound(t):
+    """does the term mention a variable bound by a contract quantifier (named x@depth)?"""
+    todo = [t]
+    seen = set()
+    while todo:
+        x = todo.pop()
+        if x.get_id() in seen:
+            continue
+        seen.add(x.get_id())
+        if z3.is_const(x) and x.decl().kind() == z3.Z3_OP_UNINTERPRETED and '@' in x.decl().name():
+            return True
+        todo.extend(x.children())
+    return False
+
+
+def lift_ite(t, depth=0):
+    """simplify, additionally turning a read of a conditional array into the conditional of the
+    reads (z3's simplifier leaves Select(If(c, A, B), i) alone when both arms are stores)"""
+    t = z3.simplify(t)
+    if depth > 4 or not z3.is_app(t):
+        return t
+    if t.decl().kind() == z3.Z3_OP_SELECT:
+        a = t.arg(0)
+        if z3.is_app(a) and a.decl().kind() == z3.Z3_OP_ITE:
+            idx = [t.arg(k) for k in range(1, t.num_args())]
+            x = lift_ite(z3.Select(a.arg(1), *idx), depth + 1)
+            y = lift_ite(z3.Select(a.arg(2), *idx), depth + 1)
+            if x.eq(y):
+                return x
+            return z3.If(a.arg(0), x, y)
+    return t
+
+
 _SUBSEQ = {}
+_CATSEQ = {}
 
 
 class SpecError(Exception):
@@ -59,6 +93,7 @@ class Ev:
         e.nounfold = getattr(self, 'nounfold', False)
         e.qdepth = getattr(self, 'qdepth', 0)
         e.qinfo = getattr(self, 'qinfo', None)
+        e.name_st = getattr(self, 'name_st', None)
         return e
 
     # -- helpers
@@ -146,7 +181,17 @@ class Ev:
                 text = text[j + 1:]
             else:
                 break
-        if text in INT_TYPES or text in ('bool', 'string', 'error', 'any'):
+        if text.startswith('map['):
+            depth = 0
+            for i, ch in enumerate(text):
+                if ch == '[':
+                    depth += 1
+                elif ch == ']':
+                    depth -= 1
+                    if depth == 0:
+                        base = 'map[%s]%s' % (self.typekey(text[4:i]), self.typekey(text[i + 1:]))
+                        break
+        elif text in INT_TYPES or text in ('bool', 'string', 'error', 'any'):
             base = text
             if text == 'byte':
                 base = 'uint8'
@@ -438,6 +483,22 @@ class Ev:
         c = ops.const_val(off)
         if c == 0:
             return Val('string', {('s',): arr, ('n',): n})
+        if z3.is_app(arr) and arr.decl().kind() == z3.Z3_OP_ITE and not self.quant and getattr(self, '_subdepth', 0) < 6:
+            # a view chosen between two arms: the sub-view is the same choice between the arms' sub-views
+            cnd = arr.arg(0)
+
+            def pick(t, i):
+                t = lift_ite(t)
+                if z3.is_app(t) and t.decl().kind() == z3.Z3_OP_ITE and t.arg(0).eq(cnd):
+                    return t.arg(i)
+                return t
+            self._subdepth = getattr(self, '_subdepth', 0) + 1
+            try:
+                s1 = self.subseq(arr.arg(1), pick(off, 1), pick(n, 1))
+                s2 = self.subseq(arr.arg(2), pick(off, 2), pick(n, 2))
+            finally:
+                self._subdepth -= 1
+            return Val('string', {('s',): z3.If(cnd, s1.lv[('s',)], s2.lv[('s',)]), ('n',): z3.If(cnd, s1.lv[('n',)], s2.lv[('n',)])})
         if self.quant:
             # under a binder the offset depends on the bound variable: a function of (row,
             # offset) with its defining axiom (no new shift terms arise from instantiation)
@@ -465,7 +526,7 @@ class Ev:
                 # the row is a conditional term: not usable as a trigger
                 ax = z3.ForAll([k], z3.Select(a, k) == z3.Select(arr, off + k))
             hit = _SUBSEQ[ck] = (a, arr, offs, ax)
-        self.st.assume(hit[3])
+        self.st.assume(hit[3], definitional=True)
         return Val('string', {('s',): hit[0], ('n',): n})
 
     def to_seq(self, x):
@@ -476,6 +537,31 @@ class Ev:
         if k == 'string':
             return x
         if k == 'slice':
+            if x.arr is None:
+                # a slice merged from two control-flow arms (if-then-else on its header): the view
+                # is the same choice between the views of the arms, so that each arm keeps the
+                # very sequence term it had before the merge
+                hdr = lift_ite(x.lv[('b',)])
+                if z3.is_app(hdr) and hdr.decl().kind() == z3.Z3_OP_ITE and getattr(self, '_seqdepth', 0) < 6:
+                    c = hdr.arg(0)
+                    slv = {p2: lift_ite(t2) for p2, t2 in x.lv.items()}
+
+                    def arm(i):
+                        lv = {}
+                        for p2, t2 in slv.items():
+                            if z3.is_app(t2) and t2.decl().kind() == z3.Z3_OP_ITE and t2.arg(0).eq(c):
+                                lv[p2] = t2.arg(i)
+                            else:
+                                lv[p2] = t2
+                        return Val(x.t, lv)
+                    self._seqdepth = getattr(self, '_seqdepth', 0) + 1
+                    try:
+                        s1 = self.to_seq(arm(1))
+                        s2 = self.to_seq(arm(2))
+                    finally:
+                        self._seqdepth -= 1
+                    return Val('string', {('s',): z3.If(c, s1.lv[('s',)], s2.lv[('s',)]),
+                                          ('n',): z3.If(c, s1.lv[('n',)], s2.lv[('n',)])})
             loc = self.st.elem_loc(x, z3.IntVal(0))
             # whole row
             row = self.row_of(x)
@@ -494,7 +580,35 @@ class Ev:
             v = st.load(loc, facts=False)
             return v.lv[('[]',)]
         key, reg = st.region('elems', st.elems_tk(et), ('[]',), ('A', self.types.leaves(et)[0][1]))
-        return z3.Select(reg, sl.lv[('b',)])
+        return self.select_row(reg, sl.lv[('b',)])
+
+    def select_row(self, reg, ref, depth=0):
+        """reg[ref] with the stores to other (provably different) references skipped and merges
+        of arms that agree on this row collapsed: the same row keeps the same term across
+        unrelated writes to the region, so that sequence views taken at different times coincide
+        syntactically"""
+        cx = self.cx
+        q = cx.solver.qf
+        n = 0
+        while z3.is_app(reg) and n < 40 and not self.quant:
+            k = reg.decl().kind()
+            if k == z3.Z3_OP_STORE:
+                r1 = reg.arg(1)
+                if r1.eq(ref):
+                    return reg.arg(2)
+                if not cx.solver.provably_different(r1, ref):
+                    break
+                reg = reg.arg(0)
+                n += 1
+                continue
+            if k == z3.Z3_OP_ITE and depth < 4:
+                a = self.select_row(reg.arg(1), ref, depth + 1)
+                b = self.select_row(reg.arg(2), ref, depth + 1)
+                if a.eq(b):
+                    return a
+                return z3.If(reg.arg(0), a, b)
+            break
+        return z3.Select(reg, ref)
 
     def ev_deref(self, e):
         x = self.ev(e[1])
@@ -511,7 +625,10 @@ class Ev:
         self.types.get(pt)
         if not loc.steps:
             return Val(pt, {(): loc.ref}, loc=loc)
-        return Val(pt, None, loc=loc)
+        # pointer into the middle of an object: its handle (the same term FieldAddr produces)
+        hd = V.interior_handle(loc)
+        self.st.assume(z3.And(hd < 0, ops.uf('ptrbase', I, I)(hd) == loc.ref))
+        return Val(pt, {(): hd}, loc=loc)
 
     def ev_assert(self, e):
         x = self.ev(e[1])
@@ -723,6 +840,9 @@ class Ev:
         if self.old is None:
             raise SpecError('old() outside a postcondition')
         sub = self.sub(st=self.old.with_sink(self.st))
+        # local variables of the function keep denoting their current values inside old():
+        # only the heap is the old one
+        sub.name_st = getattr(self, 'name_st', None) or self.st
         return sub.ev(args[0])
 
     def fn_len(self, args):
@@ -922,14 +1042,19 @@ class Ev:
     def fn_cat(self, args):
         a = self.to_seq(self.ev(args[0]))
         b = self.to_seq(self.ev(args[1]))
-        if self.quant:
-            raise SpecError('cat under quantifier')
-        r = z3.Const(fresh_name('cat'), z3.ArraySort(I, I))
-        k = z3.Int(fresh_name('k'))
+        if self.quant and (has_bound(a.lv[('s',)]) or has_bound(b.lv[('s',)]) or has_bound(a.lv[('n',)])):
+            raise SpecError('cat of a sequence that depends on a bound variable')
         an, bn = a.lv[('n',)], b.lv[('n',)]
-        self.st.assume(z3.ForAll([k], z3.Select(r, k) == z3.If(k < an, z3.Select(a.lv[('s',)], k),
-                                                                z3.Select(b.lv[('s',)], k - an))))
-        return Val('string', {('s',): r, ('n',): an + bn})
+        ck = (a.lv[('s',)].get_id(), z3.simplify(an).get_id(), b.lv[('s',)].get_id())
+        hit = _CATSEQ.get(ck)
+        if hit is None:
+            r = z3.Const(fresh_name('cat'), z3.ArraySort(I, I))
+            k = z3.Int(fresh_name('k'))
+            ax = z3.ForAll([k], z3.Select(r, k) == z3.If(k < an, z3.Select(a.lv[('s',)], k),
+                                                         z3.Select(b.lv[('s',)], k - an)), patterns=[z3.Select(r, k)])
+            hit = _CATSEQ[ck] = (r, ax, a.lv[('s',)], an, b.lv[('s',)])
+        self.st.assume(hit[1], definitional=True)
+        return Val('string', {('s',): hit[0], ('n',): an + bn})
 
     def fn_typeid(self, args):
         x = self.ev(args[0])
@@ -969,6 +1094,12 @@ class Ev:
                 return self.st.array_elem_loc(base, i)
             raise SpecError('location of index expression unsupported')
         if k == 'id':
+            # a local variable whose address is taken: the cell it lives in
+            ra = getattr(self.cx, 'resolve_addr', None)
+            if ra is not None and self.resolver is not None:
+                l = ra(getattr(self, 'name_st', None) or self.st, e[1])
+                if l is not None:
+                    return l
             v = self.ev(e)
             if isinstance(v, Val) and types.kind(v.t) == 'ptr':
                 return self.st.ptr_loc(v)
